@@ -45,9 +45,9 @@ def gauge_part(rep, n, seeds, park):
 
 
 def impl_model_part(rep, th):
-    """Level 2: ShareImpl.tla (Share at lock grain) explored exhaustively: the single counter of the code keeps OneLive / NonNegative / Grammar under every
-    interleaving; Released is EXPECTED to fail for it (the known finding, shown at design level) and to hold for a counter per generation."""
-    for cfgname in ['ShareImpl_code.cfg', 'ShareImpl_aware.cfg'] + (['ShareImpl_code3.cfg'] if th else []):
+    """Level 2: ShareImpl.tla (Share at lock grain) explored exhaustively: the counter per generation of the code (fix 75994e7) keeps OneLive / NonNegative /
+    Grammar / Released under every interleaving; Released is EXPECTED to fail for the former single counter (the repaired finding, kept at design level)."""
+    for cfgname in ['ShareImpl_aware.cfg'] + (['ShareImpl_aware3.cfg'] if th else []):
         r = vlib.run_tlc('ShareImpl', cfgname, timeout=1500, deadlock=False)
         vlib.tlc_must_pass(r, cfgname)
         rep.add_states(r)
@@ -56,7 +56,7 @@ def impl_model_part(rep, th):
             rep.inconclusive.append('Level-2 model %s violates %s (model only)' % (cfgname, r.violation))
     r = vlib.run_tlc('ShareImpl', 'ShareImpl_known.cfg', timeout=900, deadlock=False)
     rep.add_states(r)
-    rep.parts['tlc:ShareImpl_known.cfg'] = dict(violated=r.violation, note='the known finding share.stale-refcount-after-reset-leaks-upstream at design level: with ONE reference counter for all '
+    rep.parts['tlc:ShareImpl_known.cfg'] = dict(violated=r.violation, note='the repaired finding share.stale-refcount-after-reset-leaks-upstream at design level: with ONE reference counter for all '
                                                 'generations TLC finds the run in which the upstream of a new generation is never released (Released); the real code is judged by the traces')
     if r.violation != 'Released':
         rep.inconclusive.append('ShareImpl_known.cfg was expected to violate Released, TLC reports %s' % r.violation)
